@@ -44,9 +44,10 @@ def is_recent(event, config):
     Ensure the event is not too old, based on Config.oldest_event
     or in the future
     """
-    if (time() - event.created_at) > config.oldest_event:
+    # written so that a created_at which is not a number (NaN) is refused too
+    if not (time() - event.created_at) <= config.oldest_event:
         raise StorageError(f"invalid: {event.created_at} is too old")
-    elif (time() - event.created_at) < -3600:
+    elif not (time() - event.created_at) >= -3600:
         raise StorageError(f"invalid: {event.created_at} is in the future")
 
 
